@@ -595,6 +595,11 @@ def judge_answer(sim, ev, rec):
                 sim.count("oracle.C08.content-made-provider-fail")
                 add(sim, rec, "C08", "content-made-provider-fail", "%s: %s (the same call succeeds with bland content)" % (
                     rec.get("error"), rec.get("error_msg")))
+            elif rec.get("default_alg_ok"):
+                sim.count("oracle.C08.algorithm-choice-made-provider-fail")
+                add(sim, rec, "C08", "algorithm-choice-made-provider-fail",
+                    "%s: %s (the same call succeeds with the default algorithms; asked sigalg=%s digalg=%s)" % (
+                        rec.get("error"), rec.get("error_msg"), p.get("sigalg"), p.get("digalg")))
             else:
                 sim.count("probe.provider-failed-independent-of-content." + str(rec.get("error")))
         return
